@@ -745,6 +745,68 @@ fn validate_l4(proto: u8, src: &IpAddress, dst: &IpAddress, b: &[u8], is_v6: boo
     }
 }
 
+/// The offloading NIC of a device with `Checksum::Rx` / `None` capabilities: fill in the IPv4
+/// header, TCP, UDP, ICMPv4 and ICMPv6 checksums the stack left zero (unfragmented packets).
+pub fn fill_checksums(medium: Medium, frame: &mut [u8]) {
+    let Some(o) = l3_offset(medium, frame) else { return };
+    let p = &mut frame[o..];
+    if p.is_empty() {
+        return;
+    }
+    let (src, dst, mut proto, mut off, end) = match p[0] >> 4 {
+        4 => {
+            if p.len() < 20 {
+                return;
+            }
+            let ihl = ((p[0] & 0xf) as usize) * 4;
+            let total = (be16(p, 2) as usize).min(p.len());
+            if ihl < 20 || total < ihl {
+                return;
+            }
+            p[10] = 0;
+            p[11] = 0;
+            let c = !csum_fold(csum_add(0, &p[..ihl]));
+            p[10..12].copy_from_slice(&c.to_be_bytes());
+            if be16(p, 6) & 0x3fff != 0 {
+                return;
+            }
+            (v4(&p[12..16]), v4(&p[16..20]), p[9], ihl, total)
+        }
+        6 => {
+            if p.len() < 40 {
+                return;
+            }
+            (v6(&p[8..24]), v6(&p[24..40]), p[6], 40, (40 + be16(p, 4) as usize).min(p.len()))
+        }
+        _ => return,
+    };
+    // IPv6 extension headers in front of the transport header
+    while matches!(proto, 0 | 43 | 60) && off + 8 <= end {
+        let l = (p[off + 1] as usize + 1) * 8;
+        proto = p[off];
+        off += l;
+    }
+    if off >= end {
+        return;
+    }
+    let len = end - off;
+    let (cko, pseudo_sum) = match proto {
+        6 if len >= 20 => (16, pseudo(&src, &dst, 6, len)),
+        17 if len >= 8 => (6, pseudo(&src, &dst, 17, len)),
+        1 if len >= 4 => (2, 0),
+        58 if len >= 4 => (2, pseudo(&src, &dst, 58, len)),
+        _ => return,
+    };
+    let t = &mut p[off..end];
+    t[cko] = 0;
+    t[cko + 1] = 0;
+    let mut c = !csum_fold(csum_add(pseudo_sum, t));
+    if proto == 17 && c == 0 {
+        c = 0xffff;
+    }
+    t[cko..cko + 2].copy_from_slice(&c.to_be_bytes());
+}
+
 /// slug of a `validate_frame` error ("tcp-checksum: wrong" -> "c10-tcp-checksum")
 pub fn c10_class(err: &str) -> String {
     format!("c10-{}", err.split(':').next().unwrap_or("invalid").trim())
@@ -915,6 +977,10 @@ pub struct TxCtx {
     pub keep_alive: bool,
     /// this poll ingested at least one frame (statistics: fast retransmit vs RTO)
     pub had_rx: bool,
+    /// DeviceCapabilities::max_burst_size and max_transmission_unit of the emitting device: the
+    /// interface clamps the window field to max_burst * (mtu - IP header - TCP header)
+    pub max_burst: Option<usize>,
+    pub dev_mtu: usize,
 }
 
 /// What the harness knows about the receiving socket at the moment a segment is handed to it
@@ -947,6 +1013,8 @@ pub struct TxOracle {
     pub n_fast: u64,
     pub n_data: u64,
     pub n_probe: u64,
+    /// window fields clamped by max_burst_size although a window scale is in force
+    pub n_burst_clamp_scaled: u64,
 }
 
 impl TxOracle {
@@ -957,9 +1025,18 @@ impl TxOracle {
     /// the socket is back in LISTEN (handshake reset): whatever it sends next belongs to a new
     /// connection with a new initial sequence number; statistics are kept
     pub fn new_incarnation(&mut self) {
-        let keep = (self.n_rto, self.n_fast, self.n_data, self.n_probe, self.zero_window_adv);
+        let keep = (self.n_rto, self.n_fast, self.n_data, self.n_probe, self.zero_window_adv, self.n_burst_clamp_scaled);
         *self = TxOracle::new(self.side);
-        (self.n_rto, self.n_fast, self.n_data, self.n_probe, self.zero_window_adv) = keep;
+        (self.n_rto, self.n_fast, self.n_data, self.n_probe, self.zero_window_adv, self.n_burst_clamp_scaled) = keep;
+    }
+
+    /// iface/packet.rs: with `max_burst_size` the window field of every TCP segment is cut down to
+    /// max_burst * (device MTU - IP header - TCP header), whatever the socket computed
+    fn burst_clamp(s: &Seg, cx: &TxCtx) -> usize {
+        match cx.max_burst {
+            Some(b) => b * cx.dev_mtu.saturating_sub(s.ip_hdr_len + 20 + s.opt_len),
+            None => usize::MAX,
+        }
     }
 
     fn peer_scale(&self) -> u32 {
@@ -1055,8 +1132,9 @@ impl TxOracle {
                 _ => {}
             }
             self.syn_ws = s.ws;
-            let lo = cx.rxfree_after.min(65535) as u16;
-            let hi = cx.rxfree_before.min(65535) as u16;
+            let clamp = Self::burst_clamp(s, cx);
+            let lo = cx.rxfree_after.min(65535).min(clamp) as u16;
+            let hi = cx.rxfree_before.min(65535).min(clamp) as u16;
             if s.win < lo || s.win > hi {
                 out.fail("c05-syn-window", format!("{} SYN window field {} but free receive space is {}..{} (must be unscaled, capped at 65535)", who, s.win, cx.rxfree_after, cx.rxfree_before));
             }
@@ -1073,8 +1151,13 @@ impl TxOracle {
         let len = s.pay_len as i64;
         // window field scaled as negotiated
         let sh = self.own_shift();
-        let lo = (cx.rxfree_after >> sh).min(65535) as u16;
-        let hi = (cx.rxfree_before >> sh).min(65535) as u16;
+        let clamp = Self::burst_clamp(s, cx);
+        let lo = (cx.rxfree_after >> sh).min(65535).min(clamp) as u16;
+        let hi = (cx.rxfree_before >> sh).min(65535).min(clamp) as u16;
+        if cx.max_burst.is_some() && sh > 0 && (s.win as usize) == clamp && ((s.win as usize) << sh) > clamp {
+            // the clamp (a byte count) was applied to the scaled field: the peer reads clamp << shift
+            self.n_burst_clamp_scaled += 1;
+        }
         if s.win < lo || s.win > hi {
             out.fail("c05-window-scale", format!("{} window field {} (shift {}) but free receive space is {}..{}", who, s.win, sh, cx.rxfree_after, cx.rxfree_before));
         }
@@ -1199,6 +1282,11 @@ pub struct EpCfg {
     pub stall_at_ms: i64,
     pub stall_for_ms: i64,
     pub close: CloseMode,
+    /// DeviceCapabilities::max_burst_size of this endpoint's device (0 = None)
+    pub burst: usize,
+    /// checksum capabilities of the device for all protocols: 0 = Both, 1 = Tx (fills, does not
+    /// verify), 2 = Rx (verifies, does not fill: the channel plays the offloading NIC)
+    pub ck: u8,
 }
 
 #[derive(Clone, Debug)]
@@ -1275,6 +1363,8 @@ impl E2eCfg {
                     CloseMode::At(t) => format!("t{}", t),
                 },
             );
+            put("burst", e.burst.to_string());
+            put("ck", e.ck.to_string());
         }
         Case { id: self.id.clone(), cfg, ops: vec![] }
     }
@@ -1310,6 +1400,8 @@ impl E2eCfg {
                     "fin" => CloseMode::OnFin,
                     x => CloseMode::At(x[1..].parse().expect("close tN")),
                 },
+                burst: c.get_i(&k("burst"), 0) as usize,
+                ck: c.get_i(&k("ck"), 0) as u8,
             }
         };
         E2eCfg {
@@ -1438,6 +1530,8 @@ pub fn gen_e2e(rng: &mut Rng, id: String, tier: &str) -> E2eCfg {
             stall_at_ms: stall.0,
             stall_for_ms: stall.1,
             close: CloseMode::Done,
+            burst: 0,
+            ck: 0,
         });
     }
     // a window of a few bytes moves a few bytes per round trip: keep such transfers short
@@ -1517,6 +1611,24 @@ pub fn gen_e2e(rng: &mut Rng, id: String, tier: &str) -> E2eCfg {
     if rng.chance(1, 3) {
         c.bp = *rng.pick(&[3u64, 10, 30, 60]);
         c.ping = *rng.pick(&[0u64, 5, 25, 60]);
+    }
+    // DeviceCapabilities::max_burst_size (TCP window clamp in iface/packet.rs) on one or both devices
+    if rng.chance(1, 6) {
+        let b = *rng.pick(&[1usize, 2, 4, 16]);
+        match rng.below(3) {
+            0 => c.ep[0].burst = b,
+            1 => c.ep[1].burst = b,
+            _ => {
+                c.ep[0].burst = b;
+                c.ep[1].burst = *rng.pick(&[1usize, 2, 4, 16]);
+            }
+        }
+    }
+    // checksum offload: one device only fills (Tx) / only verifies (Rx) the checksums of all protocols
+    match rng.below(6) {
+        0 => c.ep[rng.below(2) as usize].ck = 1,
+        1 => c.ep[rng.below(2) as usize].ck = 2,
+        _ => {}
     }
     c
 }
@@ -1610,8 +1722,25 @@ fn ep_addr(v6: bool, side: usize) -> IpAddress {
 }
 
 pub fn make_iface(eth: bool, v6: bool, ip_mtu: usize, side: usize, random_seed: u64) -> (Interface, QDev, IpAddress) {
+    make_iface_caps(eth, v6, ip_mtu, side, random_seed, 0, 0)
+}
+
+/// `burst`: max_burst_size (0 = None); `ck`: 0 = Checksum::Both, 1 = Tx, 2 = Rx for every protocol
+pub fn make_iface_caps(eth: bool, v6: bool, ip_mtu: usize, side: usize, random_seed: u64, burst: usize, ck: u8) -> (Interface, QDev, IpAddress) {
+    use smoltcp::phy::{Checksum, ChecksumCapabilities};
     let medium = if eth { Medium::Ethernet } else { Medium::Ip };
     let mut dev = QDev::new(medium, ip_mtu + if eth { 14 } else { 0 });
+    dev.max_burst = if burst == 0 { None } else { Some(burst) };
+    if ck != 0 {
+        let c = || if ck == 1 { Checksum::Tx } else { Checksum::Rx };
+        let mut caps = ChecksumCapabilities::default();
+        caps.ipv4 = c();
+        caps.udp = c();
+        caps.tcp = c();
+        caps.icmpv4 = c();
+        caps.icmpv6 = c();
+        dev.checksum = caps;
+    }
     let hw = if eth { HardwareAddress::Ethernet(EthernetAddress([2, 0, 0, 0, 0, side as u8 + 1])) } else { HardwareAddress::Ip };
     let mut c = Config::new(hw);
     c.random_seed = random_seed;
@@ -1641,7 +1770,7 @@ fn make_socket(e: &EpCfg) -> tcp::Socket<'static> {
 }
 
 fn make_ep(cfg: &E2eCfg, side: usize) -> Ep {
-    let (iface, dev, addr) = make_iface(cfg.eth, cfg.v6, cfg.mtu, side, cfg.ep[side].rs);
+    let (iface, dev, addr) = make_iface_caps(cfg.eth, cfg.v6, cfg.mtu, side, cfg.ep[side].rs, cfg.ep[side].burst, cfg.ep[side].ck);
     let mut sockets = SocketSet::new(vec![]);
     let h = sockets.add(make_socket(&cfg.ep[side]));
     let mut own = vec![addr];
@@ -1798,7 +1927,8 @@ impl E2e {
                 // reaches the stack; only flips the IP/TCP checksums must catch are simulated
                 let lo = if self.cfg.eth { 14 } else { 0 };
                 let is_ip = l3_offset(self.medium, &frame).is_some();
-                if !is_ip || frame.len() <= lo {
+                // (a device that does not verify checksums relies on its NIC to drop corrupted frames)
+                if !is_ip || frame.len() <= lo || self.cfg.ep[to].ck == 1 {
                     fate = "drop";
                 } else {
                     fate = "flip";
@@ -1934,7 +2064,12 @@ impl E2e {
         self.eps[i].last_poll_t = now;
         // emitted frames: C10 validation, C05 oracle, link
         let frames = if livelock { self.dead = true; vec![] } else { frames };
-        for f in frames {
+        let offload = self.eps[i].cfg.ck == 2;
+        for mut f in frames {
+            if offload {
+                // this device does not compute checksums: the channel is its offloading NIC
+                fill_checksums(medium, &mut f);
+            }
             if let Err(m) = validate_frame(medium, &f, &self.eps[i].own, self.eps[i].dev.mtu) {
                 let c = c10_class(&m);
                 self.out.fail(&c, format!("case {} t={}us {}: {} frame={}", id, now, self.eps[i].name, m, crate::hex(&f[..f.len().min(80)])));
@@ -1951,6 +2086,8 @@ impl E2e {
                     ip_mtu,
                     keep_alive: e.cfg.ka_ms != 0,
                     had_rx: rx_n > 0,
+                    max_burst: e.dev.max_burst,
+                    dev_mtu: e.dev.mtu,
                 };
                 let who = format!("case {} t={}us {}:", id, now, e.name);
                 e.txo.on_emitted(&f, &s, &cx, &mut self.out, &who);
@@ -2340,6 +2477,11 @@ impl E2e {
         self.out.bump("runs_cc_cubic", cc(2));
         self.out.bump("runs_window_scaling", cfg.ep.iter().any(|e| e.rx > 65535) as u64);
         self.out.bump("runs_tiny_rx_buffer", cfg.ep.iter().any(|e| e.rx < 64) as u64);
+        self.out.bump("runs_max_burst", cfg.ep.iter().any(|e| e.burst != 0) as u64);
+        self.out.bump("runs_checksum_tx_only", cfg.ep.iter().any(|e| e.ck == 1) as u64);
+        self.out.bump("runs_checksum_rx_only", cfg.ep.iter().any(|e| e.ck == 2) as u64);
+        let bcs: u64 = self.eps.iter().map(|e| e.txo.n_burst_clamp_scaled).sum();
+        self.out.bump("segments_burst_clamp_on_scaled_window", bcs);
         self.out
     }
 }
@@ -2529,6 +2671,8 @@ impl RxSim {
             stall_at_ms: 0,
             stall_for_ms: 0,
             close: CloseMode::Done,
+            burst: 0,
+            ck: 0,
         };
         let mut sockets = SocketSet::new(vec![]);
         let h = sockets.add(make_socket(&e));
@@ -2686,7 +2830,7 @@ impl RxSim {
             }
             let Some(s) = parse_tcp(Medium::Ip, &f) else { continue };
             let sq = self.sock_ref().send_queue() as i64;
-            let cx = TxCtx { written: self.written, closed: self.closed, una: self.written as i64 - sq + matches!(self.sock_ref().state(), tcp::State::FinWait2 | tcp::State::TimeWait | tcp::State::Closed) as i64, rxfree_before: before, rxfree_after: after, ip_mtu: self.ip_mtu, keep_alive: self.keep_alive, had_rx: rx_n > 0 };
+            let cx = TxCtx { written: self.written, closed: self.closed, una: self.written as i64 - sq + matches!(self.sock_ref().state(), tcp::State::FinWait2 | tcp::State::TimeWait | tcp::State::Closed) as i64, rxfree_before: before, rxfree_after: after, ip_mtu: self.ip_mtu, keep_alive: self.keep_alive, had_rx: rx_n > 0, max_burst: self.dev.max_burst, dev_mtu: self.dev.mtu };
             let who = format!("case {} t={}us socket:", self.id, now);
             self.txo.on_emitted(&f, &s, &cx, &mut self.out, &who);
             if self.tracing {
